@@ -5,6 +5,7 @@ import (
 	"fmt"
 	"os"
 	"path/filepath"
+	"sort"
 	"strings"
 
 	"github.com/ostafen/clover/v2/document"
@@ -673,7 +674,7 @@ func RunInvalid(c *core.Ctx) {
 	add("ImportCollection(missing file)", func() error { return db.ImportCollection("imp2", filepath.Join(dir, "none.json")) })
 	add("ImportCollection(directory)", func() error { return db.ImportCollection("imp3", dir) })
 	missing := query.NewQuery("nope")
-	for name, f := range map[string]func() error{
+	missingOps := map[string]func() error{
 		"Insert": func() error { return db.Insert("nope", mkdoc(r.UUID())) }, "Save": func() error { return db.Save("nope", mkdoc(nil)) },
 		"ReplaceById": func() error { return db.ReplaceById("nope", ids[0], mkdoc(ids[0])) }, "UpdateById": func() error {
 			return db.UpdateById("nope", ids[0], func(x *document.Document) *document.Document { return x })
@@ -688,9 +689,14 @@ func RunInvalid(c *core.Ctx) {
 		"ForEach": func() error { return db.ForEach(missing, func(*document.Document) bool { return true }) }, "FindById": func() error { _, e := db.FindById("nope", ids[0]); return e },
 		"HasIndex": func() error { _, e := db.HasIndex("nope", "a"); return e }, "ListIndexes": func() error { _, e := db.ListIndexes("nope"); return e },
 		"ExportCollection": func() error { return db.ExportCollection("nope", filepath.Join(dir, "e.json")) },
-	} {
-		name, f := name, f
-		add(name+"(missing collection)", f)
+	}
+	missingNames := make([]string, 0, len(missingOps))
+	for name := range missingOps {
+		missingNames = append(missingNames, name)
+	}
+	sort.Strings(missingNames)
+	for _, name := range missingNames {
+		add(name+"(missing collection)", missingOps[name])
 	}
 	for _, sc := range scens {
 		s0, err := h.Snapshot()
